@@ -23,11 +23,21 @@ namespace Mesa.Agents
 abbrev Aid := Nat
 abbrev Ty := Nat
 
+/-- a value an agent's constructor receives: an int, or a whole sequence (a `create_agents` argument that
+    was not split) -/
+inductive Val where
+  | int (v : Int)
+  | seq (l : List Int)
+deriving Repr, DecidableEq, Inhabited
+
+/-- the constructor arguments of an agent after `model`, positional and keyword alike, in parameter order -/
+abbrev Payload := List Val
+
 structure Info where
   model : Nat
   ty : Ty
   uid : Nat
-  x : Int          -- the constructor argument the harness passes (create_agents glue)
+  x : Payload      -- what the agent's constructor received (`cls(model, *x)`)
 deriving Repr, DecidableEq, Inhabited
 
 structure Reg where
@@ -87,7 +97,7 @@ def Reg.deregister (r : Reg) (a : Aid) (ty : Ty) : Reg :=
 
 /-- `Agent.__init__`: draw the next id of this model, register.  `hold` = the program keeps
     a reference to the new agent.  An unknown model index cannot be expressed by a program. -/
-def createAgent (w : World) (m : Nat) (ty : Ty) (hold : Bool) (x : Int := 0) : World :=
+def createAgent (w : World) (m : Nat) (ty : Ty) (hold : Bool) (x : Payload := []) : World :=
   match w.regs[m]? with
   | none => w
   | some r =>
@@ -97,10 +107,31 @@ def createAgent (w : World) (m : Nat) (ty : Ty) (hold : Bool) (x : Int := 0) : W
       info := w.info ++ [{ model := m, ty := ty, uid := r.nextId, x := x }]
       held := if hold then w.held ++ [a] else w.held }
 
-/-- `Agent.create_agents(model, n, x)`: `xs i` is the argument of the i-th agent
-    (a scalar is repeated, a sequence of length n is split — glue checked by correspondence) -/
-def createN (w : World) (m : Nat) (ty : Ty) (hold : Bool) (xs : List Int) : World :=
+/-- the loop of `Agent.create_agents`: one constructor call per agent, `xs[i]` = the arguments of the i-th -/
+def createN (w : World) (m : Nat) (ty : Ty) (hold : Bool) (xs : List Payload) : World :=
   xs.foldl (fun w x => createAgent w m ty hold x) w
+
+/-- an argument (positional or keyword) handed to `create_agents`: a single object, or a list / tuple /
+    ndarray of any length -/
+inductive Arg where
+  | scalar (v : Int)
+  | seq (l : List Int)
+deriving Repr, DecidableEq
+
+/-- what the i-th of n agents receives for one argument:
+    `if isinstance(arg, (list | np.ndarray | tuple)) and len(arg) == n: arg[i]` else the argument itself
+    (`ListLike(arg)[i]`) — a sequence of any other length is **not** split -/
+def Arg.at (n i : Nat) : Arg → Val
+  | .scalar v => .int v
+  | .seq l => if l.length = n then (match l[i]? with | some v => .int v | none => .seq l) else .seq l
+
+/-- `instance_args = [arg[i] for arg in listlike_args]` (+ the same for the keyword arguments), i = 0 … n-1 -/
+def splitArgs (n : Nat) (args : List Arg) : List Payload :=
+  (List.range n).map fun i => args.map (Arg.at n i)
+
+/-- `Agent.create_agents(model, n, *args, **kwargs)` -/
+def createAgents (w : World) (m : Nat) (ty : Ty) (hold : Bool) (n : Nat) (args : List Arg) : World :=
+  createN w m ty hold (splitArgs n args)
 
 /-- `Agent.remove()` -/
 def removeAgent (w : World) (a : Aid) : World :=
